@@ -396,3 +396,53 @@ package gpbft
 //@     invariant len(signatures) == iter && q.powerTable == old(q.powerTable) && tblOK(q.powerTable)
 //@     invariant forall(j, 0, iter, signers[j] < len(q.powerTable.Entries)) && forall(j, 0, len(signers), 0 <= signers[j], trigger(signers[j]))
 //@     invariant forall(j, 0, len(signers) - 1, signers[j] <= signers[j+1], trigger(signers[j]))
+
+// The justification built from a quorum: vote = (this instance, given round and step, given value, the instance's
+// supplemental data); signers = the quorum's signer list as a bit field; signature = the aggregate of exactly the
+// quorum's signatures for exactly those signers.
+//@ func (*instance).buildJustification
+//@   property C03
+//@   modifies auto
+//@   maypanic
+//@   ensures[vote_is_for_this_instance_round_step_value_and_supplemental_data] result != nil && result.Vote.Instance == i.current.ID && result.Vote.Round == round && result.Vote.Phase == phase && result.Vote.Value == value && result.Vote.SupplementalData == *i.supplementalData
+//@   ensures[signers_and_aggregate_come_from_the_quorum] result.Signers == res(SignersBitfield, 1) && argOf(SignersBitfield, 1, 0) == quorum && result.Signature == res(Aggregate, 1, 0) && res(Aggregate, 1, 1) == nil
+//@   at Aggregate 1
+//@     before[aggregates_the_quorums_signatures_with_the_instances_aggregator] arg(0) == quorum && arg(1) == i.aggregateVerifier
+
+// A decision is reported only from a strong quorum of DECIDE votes: the value with a strong quorum, the minimal quorum
+// for that value's key out of the DECIDE tally, and a justification for round 0 of the DECIDE step.
+//@ func (*instance).tryDecide
+//@   property C03
+//@   requires i.decision != nil && i.decision.powerTable != nil && tblOK(i.decision.powerTable) && lookupOK(i.decision.powerTable)
+//@   modifies auto
+//@   maypanic
+//@   opaque FindStrongQuorumValue, tryRebroadcast
+//@   at terminate 1
+//@     before[terminates_with_a_round_zero_decide_justification_for_the_quorum_value] arg(1) == res(buildJustification, 1)
+//@          && argOf(buildJustification, 1, 1) == res(FindStrongQuorumFor, 1, 0) && argOf(buildJustification, 1, 2) == 0 && argOf(buildJustification, 1, 3) == DECIDE_PHASE && argOf(buildJustification, 1, 4) == res(FindStrongQuorumValue, 1, 0)
+//@     before[quorum_is_the_decide_tallys_for_the_key_of_that_value] res(FindStrongQuorumValue, 1, 1) && res(FindStrongQuorumFor, 1, 1) && argOf(FindStrongQuorumFor, 1, 0) == i.decision && argOf(FindStrongQuorumValue, 1, 0) == i.decision && argOf(FindStrongQuorumFor, 1, 1) == res(Key, 1) && argOf(Key, 1, 0) == res(FindStrongQuorumValue, 1, 0)
+
+//@ func (*instance).terminate
+//@   property C03
+//@   modifies auto
+//@   maypanic
+//@   ensures[the_decision_is_recorded_as_given] i.terminationValue == decision && i.value == old(decision.Vote.Value) && i.current.Phase == TERMINATED_PHASE
+
+// What the participant reports is the recorded termination value of the instance it finishes.
+//@ func (*Participant).finishCurrentInstance
+//@   property C03
+//@   modifies auto
+//@   maypanic
+//@   ensures[reports_the_recorded_decision] old(p.gpbft) != nil ==> result == old(p.gpbft.terminationValue)
+
+//@ func (*Participant).handleDecision
+//@   property C03
+//@   modifies auto
+//@   maypanic
+//@   at ReceiveDecision 1
+//@     before[the_host_gets_the_finished_instances_decision_only_once_terminated] arg(1) == res(finishCurrentInstance, 1) && res(terminated, 1)
+
+//@ structural storesonly instance.terminationValue in (*instance).terminate : a decision is recorded only by terminate
+//@   property C03
+//@ structural callersonly (*instance).terminate in (*instance).tryDecide : a decision is recorded only from a strong quorum of DECIDE votes
+//@   property C03
